@@ -153,10 +153,12 @@ CHECKS = {
    text="For every hasher in scope and every position of 1-3 valid hash strings, one character is replaced by / inserted as an "
         "arbitrary Unicode code point (symbolic); every feasible path of the real parsing and verification code must end in a bool or "
         "ValueError/TypeError, and a path that verifies forces the character to be the original or a documented re-encoding (hex "
-        "case). Truncations, deletions, duplications and garbage strings run concretely.",
+        "case, unused padding bits of a base64 field's last symbol, '+' for '.' in ab64 fields). Thorough: also two neighbouring "
+        "characters at once over the first 30 positions. Truncations, deletions, duplications and garbage strings run concretely.",
    note="Trusted: z3; SRegex (validated against re), int()/case-mapping models (validated against CPython), codec models (C12); digest "
-        "stub 'original digest iff parsed settings equal the original' (collision-free assumption). Open known findings: lenient "
-        "base64 fields and the django_des_crypt salt tail (known_findings.txt). Outside: multi-edit corruptions."),
+        "stub 'original digest iff parsed settings equal the original, else a digest differing in every symbol' (collision-free "
+        "assumption). Open known finding: the django_des_crypt salt tail (known_findings.txt). By design (documented): scram's and "
+        "mssql2000's digests that verify() does not consult. Outside: other multi-edit corruptions; scram algorithm-name characters."),
  "C07": dict(engine="E1-zshadow", category="other", design_ref="DESIGN.md §4 C07",
    technique="path exploration of the real from_string/to_string on hash text with symbolic characters (SRegex, int() model, instrumented formatting) + z3",
    text="(1) every valid hash string with one arbitrary code point per position: whenever from_string accepts, to_string() reproduces the "
